@@ -418,6 +418,73 @@ func refReceiver(c *mon.Case, r *mon.Run, p params) {
 	sw.Close()
 }
 
+// seedToServer: a (reference) client sends a well-formed PRNG seed packet to a
+// real server.  Only a client adopts the peer's seed; the bridge's bursts must
+// keep following the bridge's own table.
+func seedToServer(c *mon.Case, r *mon.Run, dir string, p params) {
+	rng := mon.NewRand(p.seed)
+	flag.Set("obfs4-distBias", fmt.Sprint(p.biased))
+	b := o4.NewBridge(rng, p.iat)
+	vals, list := table(b.Seed, p.biased)
+	sf, err := o4.ServerFactory(dir, b)
+	if err != nil {
+		c.Violation("setup/server-factory", err.Error(), nil)
+		return
+	}
+	cw, sw := memwire.Pair(memwire.Options{})
+	var sc net.Conn
+	var serr error
+	done := make(chan struct{})
+	c.Go(func() { close(done) }, func() { sc, serr = sf.WrapConn(sw) })
+	rc, _, _, rerr := o4.RefDial(cw, b.Ref, rng, -1, o4.Hours(0))
+	<-done
+	if serr != nil || rerr != nil {
+		c.Violation("setup/handshake-ref", fmt.Sprintf("%v / %v", serr, rerr), p.String())
+		cw.Close()
+		sw.Close()
+		return
+	}
+	var wg sync.WaitGroup
+	wg.Add(2)
+	c.Go(wg.Done, func() { // server application drains
+		buf := make([]byte, 8192)
+		for {
+			if _, err := sc.Read(buf); err != nil {
+				return
+			}
+		}
+	})
+	c.Go(wg.Done, func() { // reference client drains the wire
+		buf := make([]byte, 65536)
+		for {
+			if _, err := cw.Read(buf); err != nil {
+				return
+			}
+		}
+	})
+	// a foreign seed whose table is the single value 1365 (disjoint from almost every other table)
+	foreign, _ := hex.DecodeString(shaped["single-1365"])
+	rc.WriteData([]byte("hello"), 0, 0)
+	rc.Conn.Write(rc.Enc.Frame(ref.Packet(ref.PacketPrngSeed, foreign, 0)))
+	rc.WriteData([]byte("world"), 0, 0)
+	synctest.Wait()
+	var sizes []int
+	for i := 0; i < 24; i++ {
+		sizes = append(sizes, sizeMenu[rng.IntN(len(sizeMenu))])
+	}
+	sb, ok := writeBursts(c, p, "server", sc, sw.Out(), sizes, mon.Stream{Key: p.seed})
+	if ok {
+		judgeBursts(c, r, p, "server-after-client-sent-a-seed", sb, vals, list)
+		r.Count("server_bursts_after_client_seed_packet", int64(len(sb)))
+		r.Distinct("nontrivial", "seed-to-server/"+p.String())
+	}
+	r.Count("evaluations", 1)
+	synctest.Wait()
+	cw.Close()
+	sw.Close()
+	wg.Wait()
+}
+
 func TestCheck(t *testing.T) {
 	r := mon.Start(t, "C09")
 	defer r.Finish()
@@ -467,6 +534,11 @@ func TestCheck(t *testing.T) {
 				})
 			}
 			iat, biased := iat, biased
+			r.Bubble(fmt.Sprintf("seed-to-server/iat%d/b%v", iat, biased), func(c *mon.Case) {
+				for k := 0; k < r.Pick(3, 30); k++ {
+					seedToServer(c, r, dir, params{iat: iat, biased: biased, seed: r.Sub("s2s", iat, biased, k)})
+				}
+			})
 			r.Bubble(fmt.Sprintf("ref/iat%d/b%v", iat, biased), func(c *mon.Case) {
 				for k := 0; k < r.Pick(2, 20); k++ {
 					refReceiver(c, r, params{iat: iat, biased: biased, seed: r.Sub("ref", iat, biased, k)})
